@@ -11,6 +11,7 @@
  *        either a plane sample at the expected place or an untouched canary.
  *   errs fn w a h s     unified function fn (0 CompressFromYUV8, 1 EncodeYUV8, 3 DecodeYUV8) with
  *        out-of-range geometry: must fail cleanly (prints rc).
+ *   rawfp w h s sfi   rows/columns each jpeg_read_raw_data call writes (also ml/C20_driver.ml, from generated library facts)
  *   fp enc|dtp stridesNULL st0 st1 st2 w h s sfi   written-byte footprint of a per-plane function (also ml/C20_driver.ml)
  *   seq seed a n (w h s q sfi hdr) x n   legacy (TurboJPEG 2.x) entry points on reused handles, see do_seq
  *   cmp seed w h s q sfi a pf ex0 ex1 ex2 flags [fam script]
@@ -785,6 +786,71 @@ out:
   free(rgb); tj3Free(jpg); tj3Destroy(hc); tj3Destroy(hd);
 }
 
+/* ---------------------------------------------------------------- rawfp: row/column footprint of jpeg_read_raw_data calls
+ * rawfp w h s sfi : decode a JPEG of that geometry in raw-data mode into over-sized canary buffers (twice, two fills) and
+ * report output size, scaled block size, number of calls, and per component blocks, columns written and rows written by
+ * each call (same line as ml/C20_driver.ml prints from the generated library statements). */
+static void do_rawfp(char *p)
+{
+  int w, h, s, sfi, nsf = 0, i, k, run, ncalls = 0; tjscalingfactor *sfs = tj3GetScalingFactors(&nsf);
+  unsigned char *rgb = NULL, *jpg = NULL; size_t jsz = 0; tjhandle hc = NULL; char out[4000]; size_t ol = 0;
+  static int rowsw[3][64], colsw[3]; int wib[3], hib[3], outw = 0, outh = 0, mind = 0, nc = 0, bad = 0;
+  if (sscanf(p, "%d %d %d %d", &w, &h, &s, &sfi) != 4 || sfi < 0 || sfi >= nsf) { printf("rawfp badline\n"); return; }
+  rgb = (unsigned char *)malloc((size_t)w * h * 3); rs = 777 + w * 31 + h; gen_image(rgb, w, h, 3, w * 3, 0);
+  hc = tj3Init(TJINIT_COMPRESS); tj3Set(hc, TJPARAM_SUBSAMP, s); tj3Set(hc, TJPARAM_QUALITY, 90);
+  if (tj3Compress8(hc, rgb, w, 0, h, TJPF_RGB, &jpg, &jsz) < 0) { printf("rawfp setup-failed\n"); goto out; }
+  memset(rowsw, 0, sizeof(rowsw)); memset(colsw, 0, sizeof(colsw));
+  for (run = 0; run < 2; run++) {
+    struct jpeg_decompress_struct d; struct my_err e; unsigned char *buf[3] = { 0, 0, 0 }; JSAMPROW *rows[3] = { 0, 0, 0 }; JSAMPARRAY data[3];
+    int bw[3], bh[3];
+    d.err = jpeg_std_error(&e.pub); e.pub.error_exit = my_exit; e.pub.emit_message = my_emit;
+    jpeg_create_decompress(&d);
+    if (setjmp(e.jb)) { jpeg_destroy_decompress(&d); printf("rawfp library-error\n"); for (i = 0; i < 3; i++) { free(buf[i]); free(rows[i]); } goto out; }
+    jpeg_mem_src(&d, jpg, (unsigned long)jsz); jpeg_read_header(&d, TRUE);
+    d.scale_num = sfs[sfi].num; d.scale_denom = sfs[sfi].denom; d.raw_data_out = TRUE; d.dct_method = JDCT_ISLOW;
+    jpeg_start_decompress(&d);
+    nc = d.num_components; outw = d.output_width; outh = d.output_height; mind = MINDSS(&d);
+    for (i = 0; i < nc; i++) {
+      jpeg_component_info *c = &d.comp_info[i];
+      if (DSS(c) != MINDSS(&d)) bad = 1;
+      wib[i] = c->width_in_blocks; hib[i] = c->height_in_blocks;
+      bw[i] = c->width_in_blocks * DSS(c) + 16; bh[i] = c->v_samp_factor * DSS(c) + 8;
+      buf[i] = (unsigned char *)malloc((size_t)bw[i] * bh[i]); rows[i] = (JSAMPROW *)malloc(sizeof(JSAMPROW) * bh[i]);
+      for (k = 0; k < bh[i]; k++) rows[i][k] = buf[i] + (size_t)k * bw[i];
+      data[i] = rows[i];
+    }
+    ncalls = 0;
+    while (d.output_scanline < d.output_height && !bad) {
+      for (i = 0; i < nc; i++) { size_t q; for (q = 0; q < (size_t)bw[i] * bh[i]; q++) buf[i][q] = run ? canary2(q) : canary(q); }
+      if (jpeg_read_raw_data(&d, data, d.max_v_samp_factor * MINDSS(&d)) == 0) { bad = 2; break; }
+      for (i = 0; i < nc; i++) {
+        int r, c;
+        for (r = 0; r < bh[i]; r++) for (c = 0; c < bw[i]; c++) {
+          size_t q = (size_t)r * bw[i] + c;
+          if (buf[i][q] != (run ? canary2(q) : canary(q))) {
+            if (ncalls < 64 && r + 1 > rowsw[i][ncalls]) rowsw[i][ncalls] = r + 1;
+            if (c + 1 > colsw[i]) colsw[i] = c + 1;
+          }
+        }
+      }
+      ncalls++;
+    }
+    if (!bad) jpeg_finish_decompress(&d); else jpeg_abort_decompress(&d);
+    jpeg_destroy_decompress(&d);
+    for (i = 0; i < 3; i++) { free(buf[i]); free(rows[i]); }
+  }
+  if (bad == 1) { printf("rawfp skip component upsampled in the IDCT\n"); goto out; }
+  if (bad) { printf("rawfp suspended\n"); goto out; }
+  ol += snprintf(out + ol, sizeof(out) - ol, "rawfp %d %d %d %d", outw, outh, mind, ncalls);
+  for (i = 0; i < nc; i++) {
+    ol += snprintf(out + ol, sizeof(out) - ol, " | %d %d %d", wib[i], hib[i], colsw[i]);
+    for (k = 0; k < ncalls && k < 64; k++) ol += snprintf(out + ol, sizeof(out) - ol, "%s%d", k ? "," : " ", rowsw[i][k]);
+  }
+  printf("%s\n", out);
+out:
+  free(rgb); tj3Free(jpg); tj3Destroy(hc);
+}
+
 /* gs yh yv bh bv rh rv: level reported by the TurboJPEG API for a YCbCr JPEG with these sampling factors */
 static void do_gs(char *p)
 {
@@ -828,6 +894,7 @@ int main(void)
     if (!strcmp(cmd, "gs")) { do_gs(p); continue; }
     if (!strcmp(cmd, "seq")) { do_seq(p); continue; }
     if (!strcmp(cmd, "fp")) { do_fp(p); continue; }
+    if (!strcmp(cmd, "rawfp")) { do_rawfp(p); continue; }
     { char *q = p; while (n < 8) { char *e; long x = strtol(q, &e, 10); if (e == q) break; v[n++] = x; q = e; } }
     if (!strcmp(cmd, "pw") && n == 3) printf("pw %d\n", tj3YUVPlaneWidth((int)v[0], (int)v[1], (int)v[2]));
     else if (!strcmp(cmd, "ph") && n == 3) printf("ph %d\n", tj3YUVPlaneHeight((int)v[0], (int)v[1], (int)v[2]));
